@@ -4,6 +4,8 @@
 import GeoModel.Parse
 import GeoModel.Segment
 import GeoModel.F64
+import GeoModel.Locate
+import GeoModel.Valid
 
 namespace Geo.Ops.C03
 open Geo Geo.P
@@ -117,6 +119,25 @@ def handleTri (inp out : List String) : String :=
       (toString mi ++ " " ++ toString mc) (toString ix ++ " " ++ toString ct)
   | _, _ => "ERR parse"
 
+/-- `C03.poly <PG> p => <CoordPos> <contains> <intersects> <intersects, point first>` — a polygon with several holes -/
+def handlePoly (inp out : List String) : String :=
+  let pin : P (Geom × Pt) := do let g ← geometry; let p ← pt; pure (g, p)
+  let pout : P (Pos × Bool × Bool × Bool) := do let o ← posP; let a ← bool; let b ← bool; let c ← bool; pure (o, a, b, c)
+  match P.run pin inp, P.run pout out with
+  | some (g, p), some (o, ct, ix, xi) =>
+    if !inDomain g then skip "invalid-operand" else
+    let sp := locate g p            -- the point set
+    let m := coordPos g p           -- the model of the code
+    let nholes := match g with | .polygon pg => pg.ints.length | _ => 0
+    let prop :=
+      if o != sp then "FAIL:point-in-polygon-wrong"
+      else if ct != (sp == .inside) then "FAIL:polygon-contains-point-wrong"
+      else if ix != (sp != .outside) || xi != ix then "FAIL:polygon-intersects-point-wrong"
+      else "PASS"
+    let tags := "pos=" ++ sp.str ++ " holes=" ++ toString nholes ++ (if underflowRange [p] then " underflow-range" else "")
+    reply (o == m) prop tags (m.str ++ " spec " ++ sp.str) o.str
+  | _, _ => "ERR parse"
+
 def handle (op : String) (inp out : List String) : Option String :=
   match op with
   -- single-precision operands: the robust kernel widens them exactly, the same exact model applies;
@@ -128,6 +149,7 @@ def handle (op : String) (inp out : List String) : Option String :=
   | "C03.segi64" | "C03.segi32" => some (if out == ["notint"] then skip "not-integer" else handleSeg inp out)
   | "C03.ringi64" | "C03.ringi32" => some (if out == ["notint"] then skip "not-integer" else handleRing inp out)
   | "C03.trii64" | "C03.trii32" => some (if out == ["notint"] then skip "not-integer" else handleTri inp out)
+  | "C03.poly" => some (handlePoly inp out)
   | "C03.orient" => some (handleOrient inp out)
   | "C03.orienti" => some (handleOrientI inp out)
   | "C03.seg" => some (handleSeg inp out)
